@@ -543,3 +543,209 @@ class ExceptionMonitor(Monitor):
 
 def standard_monitors(w, strict_order: bool = False) -> list:
     return []
+
+
+# ---------------------------------------------------------------------------------------------
+# C18: lost-segment bookkeeping refines an exact interval set (in situ)
+
+
+class TrackerShadow(Monitor):
+    """Wraps the four public methods of LostSegmentTracker (harness side, nothing in /repo) and keeps
+    a shadow IntervalSet per tracker object. An operation is judged iff it satisfies the
+    preconditions of the property; otherwise it is counted and the shadow is re-synchronised."""
+
+    active = None
+    _installed = False
+
+    def __init__(self, w):
+        self.w = w
+        self.shadow = {}  # id(tracker) -> IntervalSet | None (None = real state is not a set of disjoint ranges)
+        self.keep = {}
+        TrackerShadow.install()
+        TrackerShadow.active = self
+
+    def on_end(self, w) -> None:
+        TrackerShadow.active = None
+
+    # -- helpers
+    @staticmethod
+    def _items(tr):
+        return list(tr.lost_segments.items())
+
+    @staticmethod
+    def _wellformed(items) -> bool:
+        srt = sorted(items)
+        for (a, b) in srt:
+            if not a < b:
+                return False
+        for (x, y) in zip(srt, srt[1:]):
+            if x[1] > y[0]:
+                return False
+        return True
+
+    def _sync(self, tr):
+        items = self._items(tr)
+        if self._wellformed(items):
+            self.shadow[id(tr)] = IntervalSet(items)
+        else:
+            self.shadow[id(tr)] = None
+        self.keep[id(tr)] = tr
+
+    def _get(self, tr):
+        if id(tr) not in self.shadow:
+            self._sync(tr)
+        elif self.shadow[id(tr)] is None:
+            self._sync(tr)
+        return self.shadow[id(tr)]
+
+    def _check_report(self, tr, op, arg, want: IntervalSet) -> None:
+        w = self.w
+        items = self._items(tr)
+        for (a, b) in items:
+            if not a < b:
+                w.violate("C18.empty_range", f"after {op}", f"arg={arg} items={items}")
+                return
+        if items != sorted(items):
+            w.violate("C18.ascending", f"after {op}", f"arg={arg} items={items}")
+        got = IntervalSet(items)
+        if got != want or sum(b - a for a, b in items) != want.size():
+            w.violate("C18.denoted_set", f"after {op}", f"arg={arg} items={items} want={want}")
+        if tr.num_lost_segments != len(items):
+            w.violate("C18.count", f"after {op}", "")
+
+    # -- wrappers
+    @classmethod
+    def install(cls) -> None:
+        if cls._installed:
+            return
+        cls._installed = True
+        from cfdppy.handler.dest import LostSegmentTracker as T
+
+        o_add, o_rem, o_coa, o_reset = T.add_lost_segment, T.remove_lost_segment, T.coalesce_lost_segments, T.reset
+
+        def add(self, lost_seg):
+            m = cls.active
+            if m is None:
+                return o_add(self, lost_seg)
+            return m._add(self, lost_seg, o_add)
+
+        def rem(self, seg):
+            m = cls.active
+            if m is None:
+                return o_rem(self, seg)
+            return m._rem(self, seg, o_rem)
+
+        def coa(self):
+            m = cls.active
+            if m is None:
+                return o_coa(self)
+            return m._coa(self, o_coa)
+
+        def reset(self):
+            m = cls.active
+            r = o_reset(self)
+            if m is not None:
+                m.shadow[id(self)] = IntervalSet()
+                m.keep[id(self)] = self
+                if self.lost_segments:
+                    m.w.violate("C18.reset", "tracker not empty after reset", "")
+            return r
+
+        T.add_lost_segment, T.remove_lost_segment, T.coalesce_lost_segments, T.reset = add, rem, coa, reset
+
+    def _add(self, tr, seg, orig):
+        w = self.w
+        sh = self._get(tr)
+        a, b = seg[0], seg[1]
+        ok = sh is not None and a < b and not sh.overlaps(a, b)
+        r = orig(tr, seg)
+        if not ok:
+            w.probe("C18.add_outside_preconditions")
+            self._sync(tr)
+            return r
+        w.probe("C18.add_judged")
+        sh.add(a, b)
+        self._check_report(tr, "add", seg, sh)
+        return r
+
+    def _rem(self, tr, seg, orig):
+        w = self.w
+        sh = self._get(tr)
+        a, b = seg[0], seg[1]
+        before = self._items(tr)
+        if sh is None:
+            w.probe("C18.remove_outside_preconditions")
+            try:
+                return orig(tr, seg)
+            finally:
+                self._sync(tr)
+        # classification against the ranges as tracked (adjacent ranges that were not coalesced are
+        # different tracked ranges: a removal reaching from one into the next straddles the first)
+        if a == b:
+            kind = "empty"
+        elif a > b:
+            kind = "other"
+        elif any(x <= a and b <= y for (x, y) in before):
+            kind = "inside"
+        elif not any(x < b and a < y for (x, y) in before):
+            kind = "none"
+        else:
+            host = [(x, y) for (x, y) in before if x <= a < y]
+            kind = "straddle" if host and b > host[0][1] else "other"
+        try:
+            r = orig(tr, seg)
+        except ValueError:
+            if kind == "straddle":
+                w.probe("C18.straddle_refused")
+                if self._items(tr) != before:
+                    w.violate("C18.refusal_changes_state", "straddling removal", f"seg={seg} before={before} after={self._items(tr)}")
+                    self._sync(tr)
+            elif kind in ("inside", "none", "empty"):
+                w.violate("C18.spurious_value_error", f"removal kind={kind}", f"seg={seg} tracked={before}")
+                self._sync(tr)
+            else:
+                w.probe("C18.remove_outside_preconditions")
+                self._sync(tr)
+            raise
+        except Exception as e:  # noqa: BLE001
+            w.violate("C18.exception", f"remove raises {type(e).__name__} kind={kind}", f"seg={seg} tracked={before}")
+            self._sync(tr)
+            raise
+        if kind == "straddle":
+            w.violate("C18.straddle_not_refused", f"returned {r}", f"seg={seg} tracked={before} after={self._items(tr)}")
+            self._sync(tr)
+            return r
+        if kind == "other":
+            w.probe("C18.remove_outside_preconditions")
+            self._sync(tr)
+            return r
+        w.probe(f"C18.remove_judged_{kind}")
+        if kind == "inside":
+            sh.remove(a, b)
+            want_ret = True
+        else:
+            want_ret = False
+        if r is not want_ret:
+            w.violate("C18.remove_return", f"kind={kind} returned={r}", f"seg={seg} tracked={before}")
+        self._check_report(tr, "remove", seg, sh)
+        if self._items(tr) != before and not want_ret:
+            w.violate("C18.noop_changes_state", f"kind={kind}", f"seg={seg} before={before} after={self._items(tr)}")
+        return r
+
+    def _coa(self, tr, orig):
+        w = self.w
+        sh = self._get(tr)
+        r = orig(tr)
+        if sh is None:
+            self._sync(tr)
+            return r
+        w.probe("C18.coalesce_judged")
+        self._check_report(tr, "coalesce", None, sh)
+        items = self._items(tr)
+        for x, y in zip(items, items[1:]):
+            if x[1] == y[0]:
+                w.violate("C18.adjacent_after_coalesce", "", f"items={items}")
+                break
+        if len(items) > 1:
+            w.probe("C18.coalesce_multi")
+        return r
